@@ -22,6 +22,11 @@ the same tags is the excluded reuse), and the first use in question returned a u
 histogram theorem additionally asks that every first use of the name is a histogram with this very
 spec (no reuse of the name for a timer or for another bucket layout) and that the spec is in the
 stated domain.  `conflict_never_panics` has no hypothesis on the history at all.
+
+All of these quantify over every `UseKind`, hence also over the vectors obtained through the
+exported `RegisterCounter` / `RegisterGauge` (`counterAs`, `gaugeAs`: the caller writes the series
+directly); the last section adds their value theorems and
+`register_counter_then_allocate_shares_series` / `register_gauge_then_allocate_shares_series`.
 -/
 namespace Tally.Props.C17
 open Tally Tally.Prom
@@ -403,5 +408,108 @@ example : Usable {} ([] ++ [.use .counter [109] [([97], [120])]] ++ [.op 0 (.inc
     .counter [109] [([97], [121])] :=
   (series_separate {} [] [.op 0 (.inc 1), .pass, .use .gauge [103] []] [] .counter [109] [([97], [120])] [([97], [121])]
     (by decide) (by decide) ⟨⟨[109], [([97], [120])]⟩, by decide⟩).1
+
+/-! ### vectors pre-registered through `RegisterCounter` / `RegisterGauge` -/
+
+/-- **gather_register_counter_sum** — a counter obtained through `RegisterCounter` + `With(tags)`
+and written directly shows the sum of the increments made on it (no report pass is needed for
+that: `localRun_rawCounter` holds after every prefix) -/
+theorem gather_register_counter_sum (cfg : Cfg) (pre post : List Ev) (name : Bytes) (tags : Tags)
+    (hd : Separate pre post .counterAs name tags) (hu : Usable cfg pre .counterAs name tags) :
+    (∃ e ∈ finalGather cfg (pre ++ [.use .counterAs name tags] ++ post), e.key = ⟨name, tags⟩)
+    ∧ ∀ e ∈ finalGather cfg (pre ++ [.use .counterAs name tags] ++ post), e.key = ⟨name, tags⟩ →
+        e.val = .counter (Spec.C17.incSum (proj (usesOf pre).length post)) := by
+  obtain ⟨f, hfk, _, hex, hall⟩ := final_series cfg pre post .counterAs name tags hd hu
+  refine ⟨hex, fun e he hk => ?_⟩
+  rw [hall e he hk]
+  have hz : Val.zero f = .counter 0 := by simp [Val.zero, hfk, Spec.C17.typeOf]
+  have hrc : Spec.C17.incSum (proj (usesOf pre).length post ++ [.pass]) = Spec.C17.incSum (proj (usesOf pre).length post) := by
+    generalize proj (usesOf pre).length post = l
+    induction l with
+    | nil => rfl
+    | cons a t ih => cases a <;> simp [Spec.C17.incSum, ih]
+  rw [hz]
+  simp only [newMetric, localRun_rawCounter, Val.export, hrc, Nat.zero_add]
+
+/-- **gather_register_gauge_last** — a gauge obtained through `RegisterGauge` + `With(tags)` and
+written directly shows its last update (`+0` before the first one) -/
+theorem gather_register_gauge_last (cfg : Cfg) (pre post : List Ev) (name : Bytes) (tags : Tags)
+    (hd : Separate pre post .gaugeAs name tags) (hu : Usable cfg pre .gaugeAs name tags) :
+    (∃ e ∈ finalGather cfg (pre ++ [.use .gaugeAs name tags] ++ post), e.key = ⟨name, tags⟩)
+    ∧ ∀ e ∈ finalGather cfg (pre ++ [.use .gaugeAs name tags] ++ post), e.key = ⟨name, tags⟩ →
+        e.val = .gauge (Spec.C17.lastUpdate (proj (usesOf pre).length post) 0) := by
+  obtain ⟨f, hfk, _, hex, hall⟩ := final_series cfg pre post .gaugeAs name tags hd hu
+  refine ⟨hex, fun e he hk => ?_⟩
+  rw [hall e he hk]
+  have hz : Val.zero f = .gauge 0 := by simp [Val.zero, hfk, Spec.C17.typeOf]
+  have hrc : ∀ d, Spec.C17.lastUpdate (proj (usesOf pre).length post ++ [.pass]) d = Spec.C17.lastUpdate (proj (usesOf pre).length post) d := by
+    generalize proj (usesOf pre).length post = l
+    induction l with
+    | nil => intro d; rfl
+    | cons a t ih => intro d; cases a <;> simp [Spec.C17.lastUpdate, ih]
+  rw [hz]
+  simp only [newMetric, localRun_rawGauge, Val.export, hrc]
+
+/-- **register_counter_then_allocate_shares_series** — in any world (reachable or not), once
+`RegisterCounter(name, keys)` + `With(tags)` handed the caller a usable Prometheus counter with
+series key `k`, every later `AllocateCounter(name, tags)` — after any further first uses,
+recordings and report passes `mid` — finds the pre-registered vector in the reporter's cache: it
+returns a usable tally counter reporting into the SAME series `k`, and nothing is handed to the
+error callback. -/
+theorem register_counter_then_allocate_shares_series (cfg : Cfg) (w : World) (mid : List Ev) (name : Bytes)
+    (tags : Tags) (k : SeriesKey) (h : (useMetric cfg w.rep .counterAs name tags).2 = .usable k) :
+    ∀ w', w' = mid.foldl (step cfg) (step cfg w (.use .counterAs name tags)) →
+      (useMetric cfg w'.rep .counter name tags).2 = .usable k
+      ∧ (useMetric cfg w'.rep .counter name tags).1.errors = w'.rep.errors := by
+  intro w' hw'
+  obtain ⟨f, hf, hk, hst⟩ := finishRegister_usable (counterVec w.rep name (keysOf tags)) tags k h
+  have h1 : lookupKey (step cfg w (.use .counterAs name tags)).rep.counters (name, keysOf tags) = some f := by
+    have : (step cfg w (.use .counterAs name tags)).rep = (finishRegister (counterVec w.rep name (keysOf tags)) tags).1 := rfl
+    rw [this, hst.counters]
+    exact counterVec_cached w.rep name (keysOf tags) f hf
+  have h2 : lookupKey w'.rep.counters (name, keysOf tags) = some f := by
+    rw [hw']; exact (foldl_grows cfg mid _).counters _ _ h1
+  rw [counter_use_of_cached cfg _ name tags f h2, hk]
+  exact ⟨rfl, (withSeries_static _ f tags).errors⟩
+
+/-- **register_gauge_then_allocate_shares_series** — the same for `RegisterGauge` followed by
+`AllocateGauge` -/
+theorem register_gauge_then_allocate_shares_series (cfg : Cfg) (w : World) (mid : List Ev) (name : Bytes)
+    (tags : Tags) (k : SeriesKey) (h : (useMetric cfg w.rep .gaugeAs name tags).2 = .usable k) :
+    ∀ w', w' = mid.foldl (step cfg) (step cfg w (.use .gaugeAs name tags)) →
+      (useMetric cfg w'.rep .gauge name tags).2 = .usable k
+      ∧ (useMetric cfg w'.rep .gauge name tags).1.errors = w'.rep.errors := by
+  intro w' hw'
+  obtain ⟨f, hf, hk, hst⟩ := finishRegister_usable (gaugeVec w.rep name (keysOf tags)) tags k h
+  have h1 : lookupKey (step cfg w (.use .gaugeAs name tags)).rep.gauges (name, keysOf tags) = some f := by
+    have : (step cfg w (.use .gaugeAs name tags)).rep = (finishRegister (gaugeVec w.rep name (keysOf tags)) tags).1 := rfl
+    rw [this, hst.gauges]
+    exact gaugeVec_cached w.rep name (keysOf tags) f hf
+  have h2 : lookupKey w'.rep.gauges (name, keysOf tags) = some f := by
+    rw [hw']; exact (foldl_grows cfg mid _).gauges _ _ h1
+  rw [gauge_use_of_cached cfg _ name tags f h2, hk]
+  exact ⟨rfl, (withSeries_static _ f tags).errors⟩
+
+/-- a concrete run: `RegisterCounter` + `With`, two `Add`s through the Prometheus counter, then
+`AllocateCounter` of the same name and tags (usable, same series, no callback), one `Inc` through
+the tally counter, a report pass: `Gather()` lists one series holding 3 + 4 + 5 -/
+example : ((run {} [.use .counterAs [109] [], .op 0 (.inc 3), .op 0 (.inc 4), .use .counter [109] [],
+      .op 1 (.inc 5)]).trace.map fun t => (t.outcome, t.callbacks))
+    = [(.usable ⟨[109], []⟩, 0), (.usable ⟨[109], []⟩, 0)] := by decide
+
+example : finalGather {} [.use .counterAs [109] [], .op 0 (.inc 3), .op 0 (.inc 4), .use .counter [109] [],
+      .op 1 (.inc 5)]
+    = [{ key := ⟨[109], []⟩, help := [109, 32, 99, 111, 117, 110, 116, 101, 114], val := .counter 12 }] := by
+  have h : entriesOf (run {} ([.use .counterAs [109] [], .op 0 (.inc 3), .op 0 (.inc 4), .use .counter [109] [],
+      .op 1 (.inc 5)] ++ [.pass])).rep
+      = [{ key := ⟨[109], []⟩, help := [109, 32, 99, 111, 117, 110, 116, 101, 114], val := .counter 12 }] := by decide
+  unfold finalGather gather
+  rw [h, List.mergeSort_singleton]
+
+/-- why the oracle's `normKind` keeps `gaugeAs` apart from `gauge` (while `counterAs` is a
+`counter`): a direct `Set(2.5)` made after a buffered `Update(1.0)` is overwritten by the next
+report pass — the shared series ends at 1.0, not at the last update in program order -/
+example : getS (run {} [.use .gaugeAs [103] [], .use .gauge [103] [], .op 1 (.update 0x3FF0000000000000),
+      .op 0 (.update 0x4004000000000000), .pass]).rep.series ⟨[103], []⟩ = some (.gauge 0x3FF0000000000000) := by decide
 
 end Tally.Props.C17
